@@ -695,4 +695,16 @@ func translateBle(repo, outPath string) {
 	}
 	w("(* decoders: %s *)\n", strings.Join(decNames, " "))
 	writeIfChanged(outPath, t.sb.String())
+	// the same text once more, to be read against the binary64 vocabulary (Ble/GoSemF.v, Module FV),
+	// wrapped in Module F so that the extracted names do not clash
+	hdr := "From GV Require Import Ble.GoSem.\nImport ListNotations.\nLocal Open Scope Z_scope.\n\n"
+	body := t.sb.String()
+	i := strings.Index(body, hdr)
+	if i < 0 {
+		fail("internal: header of the generated file not found")
+	}
+	f := body[:i] + "(* SAME TEXT as BleImpl.v below the header; float operations are IEEE-754 binary64 here. *)\n" +
+		"From GV Require Import Ble.GoSem Ble.GoSemF.\nImport FV.\nImport ListNotations.\nLocal Open Scope Z_scope.\n\nModule F.\n" +
+		body[i+len(hdr):] + "End F.\n"
+	writeIfChanged(strings.TrimSuffix(outPath, ".v")+"F.v", f)
 }
